@@ -49,6 +49,21 @@ class Drv:
         self.lines += 1
         return r.strip()
 
+    def ask_many(self, lines):
+        """pipelined: short requests whose replies are short (no deadlock on the pipe buffers)"""
+        out = []
+        for k in range(0, len(lines), 200):
+            chunk = lines[k:k + 200]
+            self.p.stdin.write('\n'.join(chunk) + '\n')
+            self.p.stdin.flush()
+            for _ in chunk:
+                r = self.p.stdout.readline()
+                if not r:
+                    raise RuntimeError('driver died')
+                out.append(r.strip())
+            self.lines += len(chunk)
+        return out
+
     def fresh(self):
         self.nid += 1
         return self.nid
@@ -116,6 +131,8 @@ class Fn:
 
     def __call__(self, *p):
         q = [float(p[i]) - self.c[i] if i < self.dim else 0.0 for i in range(3)]
+        if not all(math.isfinite(v) for v in q):
+            return float('nan')             # keep the function total (math.sin(inf) raises)
         if self.nan is not None:
             a, lo, hi = self.nan
             if lo <= float(p[a]) <= hi:
@@ -290,10 +307,10 @@ def run_impl(sc, order):
         try:
             v = c(*p)
             st = 'val'
+        except np.linalg.LinAlgError:        # NB a subclass of ValueError: test it first
+            v, st = None, 'error'
         except ValueError:
             v, st = None, 'raise'
-        except np.linalg.LinAlgError:
-            v, st = None, 'error'
         except Exception as e:  # noqa
             v, st = None, 'Other:' + type(e).__name__
         out.append((st, v, rec.calls[n0:]))
@@ -350,11 +367,14 @@ def k_history(ctx, drv, sc, order, c, impl_out, tag):
     ncmp = 0
     for idx, (st, v, calls) in zip(order, impl_out):
         p = sc['points'][idx]
+        new = []
         for a, val in calls:
             key = tuple(f2b(x) for x in a)
             if key not in sent:
                 sent.add(key)
-                drv.ask('fn %d %s %s' % (fid, fs(a), f2b(val)))
+                new.append('fn %d %s %s' % (fid, fs(a), f2b(val)))
+        if new:
+            drv.ask_many(new)
         mst, mv, mcalls, solved = drv.evaluate(oid, p)
         ncmp += 1
         ctx.count('K:%dD:%s' % (dim, st))
@@ -641,9 +661,49 @@ def s_witness(ctx, w):
         # the generic oracle, so that the signatures are the same ones a random scenario would produce
         if _single_point_oracle(ctx, dict(sc), c, fn, p):
             ctx.count('witness-fired:' + w['name'])
+            w['hit'] = p
             return True
     ctx.count('witness-silent:' + w['name'])
     return False
+
+
+def explore_fragile(ctx, n):
+    """seeded random search around the witnesses: large |offset| / cell width, fine grids (S only)"""
+    rng = ctx.rng
+    for _ in range(n):
+        dim = rng.choice([1, 1, 2, 2, 3])
+        area, res = [], []
+        for d in range(dim):
+            L = rng.choice([1.0, 0.5, 4.0, 10.0])
+            mode = rng.random()
+            if mode < 0.5:      # far from the origin
+                off = rng.choice([-1, 1]) * L * 10 ** rng.uniform(1, {1: 6, 2: 4.5, 3: 3.5}[dim])
+                ncell = rng.randint(3, {1: 400, 2: 40, 3: 8}[dim])
+            else:               # fine grid
+                off = L * rng.uniform(-1, 0)
+                ncell = int(10 ** rng.uniform(1.5, {1: 6, 2: 2.9, 3: 1.6}[dim]))
+            area += [off, off + L]
+            res.append(L / ncell * 0.999)
+        kind = rng.choice(['multilinear', 'smooth'])
+        sc = dict(dim=dim, area=area, res=res, nbe=False, bounds=rng.choice([None, None, (-3.0, 20.0)]), points=[])
+        sc['fn'] = rnd_fn(rng, dim, area, kind)
+        fn = Fn(sc['fn'])
+        try:
+            c = build(sc, fn)
+        except MemoryError:
+            continue
+        dom = domains(c, dim)
+        fired = False
+        for _ in range(6):
+            ix = [rng.randint(1, len(dom[d]) - 3) for d in range(dim)]
+            p = tuple(float(dom[d][ix[d]] + rng.random() * (dom[d][ix[d] + 1] - dom[d][ix[d]])) for d in range(dim))
+            if not all(sc['area'][2 * d] <= p[d] <= sc['area'][2 * d + 1] for d in range(dim)):
+                continue
+            ctx.case(key=('fragile', dim, f2b(p[0]), f2b(area[0])))
+            if _single_point_oracle(ctx, dict(sc, points=[p]), c, fn, p):
+                fired = True
+                break
+        ctx.count('fragile-search:%dD:%s' % (dim, 'fired' if fired else 'held'))
 
 
 def _single_point_oracle(ctx, sc, c, fn, p):
@@ -749,25 +809,28 @@ def run(ctx):
     try:
         ctor_stream(ctx, drv)
         find_index_stream(ctx, drv, ctx.n(300, 5000))
-        nsc = {1: ctx.n(24, 300), 2: ctx.n(8, 90), 3: ctx.n(2, 16)}
+        nsc = {1: ctx.n(40, 500), 2: ctx.n(14, 150), 3: ctx.n(2, 20)}
         for dim in (1, 2, 3):
             for _ in range(nsc[dim]):
                 sc = rnd_scenario(ctx.rng, dim)
                 run_scenario(ctx, drv, sc, 5)
         # float-gap witnesses: S on each; K on the cheap ones (the Float model must show the same behaviour)
-        for w in witnesses():
+        ws = witnesses()
+        for w in ws:
             s_witness(ctx, w)
-        for w in witnesses():
-            if w['name'] in ('far-1D', 'far-2D'):
+        for w in ws:
+            if w['name'] in ('far-1D', 'far-2D', 'fine-2D'):
                 sc = dict(w['sc'])
-                c0 = build(sc, lambda *a: 0.0)
-                dom = domains(c0, sc['dim'])
                 rr = random.Random('C14-k-' + w['name'])
                 sc['points'] = [tuple(float(rr.uniform(sc['area'][2 * d], sc['area'][2 * d + 1])) for d in range(sc['dim']))
-                                for _ in range(6)]
-                for o in ([0, 1, 2, 3, 4, 5], [5, 3, 1, 4, 2, 0]):
+                                for _ in range(5)]
+                if w.get('hit') is not None:
+                    sc['points'].append(tuple(w['hit']))      # the point at which the witness fired
+                n = len(sc['points'])
+                for o in (list(range(n)), list(reversed(range(n)))):
                     c, out = run_impl(sc, o)
                     ctx.traces += k_history(ctx, drv, sc, o, c, out, 'witness ' + w['name'])
+        explore_fragile(ctx, ctx.n(30, 400))
         ctx.extra['driver_lines'] = drv.lines
     finally:
         drv.close()
